@@ -10,7 +10,7 @@ def unf (m : Mon) : Bool := !m.phase.finished
 /-- per-monitor part of the invariant: how the error bookkeeping relates to the phase -/
 def Mon.ok (m : Mon) : Prop :=
   match m.phase with
-  | .fresh => m.todo = [] ∧ m.failed = [] ∧ m.err = none ∧ m.inErrors = false
+  | .fresh => m.todo = [] ∧ m.failed = [] ∧ m.err = none ∧ m.inErrors = false ∧ m.skipped = false
   | .queued => m.failed = [] ∧ m.err = none ∧ m.inErrors = false
   | .running _ => m.err = none ∧ m.inErrors = false
   | .failing _ => m.failed ≠ [] ∧ m.todo = [] ∧ m.err = none ∧ m.inErrors = false
@@ -24,7 +24,9 @@ structure Inv (s : State) : Prop where
   post_le  : s.postPending + s.posted ≤ 1
   post_iff : s.postPending + s.posted = 1 ↔ s.unfinished = 0
   mon_ok   : ∀ m ∈ s.mons, m.ok
-  hreg     : s.handlerReg = true → ∀ r, s.mons[0]? = some r → r.phase ≠ .fresh
+  /-- no finish-handler observer ⇒ the root has not been handed over, or its event was skipped -/
+  hreg     : s.handlerReg = false → ∀ r, s.mons[0]? = some r → r.phase = .fresh ∨ r.skipped = true
+  hskip    : s.handlerReg = true → ∀ r, s.mons[0]? = some r → r.skipped = false
   wreg     : s.waitReturned = true → s.waiting = true
   pre      : s.posted = 0 → s.dWait = 0 ∧ s.dHandler = 0 ∧ s.dQueue = 0 ∧ s.released = 0 ∧
                s.handlerCalls = 0 ∧ s.waitReturned = false ∧
@@ -34,7 +36,7 @@ structure Inv (s : State) : Prop where
   noPanic  : s.panicked = false
 
 theorem inv_init (w : Nat) (ff : Bool) : Inv (init w ff) := by
-  refine ⟨?_, ?_, ?_, ?_, ?_, ?_, ?_, ?_, ?_⟩ <;> simp [init, unf, Phase.finished, Mon.ok, List.countP_cons]
+  refine ⟨?_, ?_, ?_, ?_, ?_, ?_, ?_, ?_, ?_, ?_⟩ <;> simp [init, unf, Phase.finished, Mon.ok]
 
 theorem getElem_of_get? {l : List Mon} {i : Nat} {m : Mon} (h : l[i]? = some m) :
     ∃ hi : i < l.length, l[i] = m := by
@@ -87,11 +89,37 @@ theorem anyQueued_false {s : State} (h : ∀ m ∈ s.mons, m.phase.finished = tr
   have := h m hm
   cases hp : m.phase <;> simp_all [Phase.finished]
 
+/-- what a replacement of monitor `i` has to respect when `i` is the root -/
+def RootKeep (s : State) (i : Nat) (m' : Mon) : Prop :=
+  i = 0 → (s.handlerReg = false → m'.phase = .fresh ∨ m'.skipped = true) ∧ (s.handlerReg = true → m'.skipped = false)
+
+theorem Inv.root_keep {s : State} (h : Inv s) {i : Nat} {m m' : Mon} (hi : s.mons[i]? = some m)
+    (hph : m.phase ≠ .fresh) (hsk : m'.skipped = m.skipped) : RootKeep s i m' := by
+  intro i0
+  subst i0
+  constructor
+  · intro hr
+    rcases h.hreg hr m hi with h1 | h1
+    · exact absurd h1 hph
+    · right; rw [hsk]; exact h1
+  · intro hr
+    rw [hsk]; exact h.hskip hr m hi
+
+theorem root_after_set {s : State} {i : Nat} {m' r : Mon} (h0 : (s.mons.set i m')[0]? = some r) :
+    (i = 0 ∧ r = m') ∨ (i ≠ 0 ∧ s.mons[0]? = some r) := by
+  rw [List.getElem?_set] at h0
+  split at h0
+  · rename_i h; left
+    split at h0
+    · cases h0; exact ⟨h, rfl⟩
+    · cases h0
+  · rename_i h; right; exact ⟨h, h0⟩
+
 /-- replacing a monitor without changing whether it is finished -/
 theorem inv_setMon {s : State} {i : Nat} {m m' : Mon} (h : Inv s) (hi : s.mons[i]? = some m)
-    (hf : unf m' = unf m) (hok : m'.ok) (hnf : m'.phase ≠ .fresh) : Inv (s.setMon i m') := by
+    (hf : unf m' = unf m) (hok : m'.ok) (hk : RootKeep s i m') : Inv (s.setMon i m') := by
   obtain ⟨hl, hm⟩ := getElem_of_get? hi
-  refine ⟨?_, h.post_le, h.post_iff, ?_, ?_, h.wreg, h.pre, h.post, h.noPanic⟩
+  refine ⟨?_, h.post_le, h.post_iff, ?_, ?_, ?_, h.wreg, h.pre, h.post, h.noPanic⟩
   · show s.unfinished = (s.mons.set i m').countP unf
     rw [List.countP_set hl, hm, hf]
     have := boole_le_countP s.mons i hl
@@ -103,16 +131,17 @@ theorem inv_setMon {s : State} {i : Nat} {m m' : Mon} (h : Inv s) (hi : s.mons[i
     · exact h.mon_ok x hx
     · exact hx ▸ hok
   · intro hr r h0
-    show r.phase ≠ .fresh
-    have h0' : (s.mons.set i m')[0]? = some r := h0
-    rw [List.getElem?_set] at h0'
-    split at h0'
-    · cases h0'; exact hnf
+    rcases root_after_set h0 with ⟨i0, rfl⟩ | ⟨_, h0'⟩
+    · exact (hk i0).1 hr
     · exact h.hreg hr r h0'
+  · intro hr r h0
+    rcases root_after_set h0 with ⟨i0, rfl⟩ | ⟨_, h0'⟩
+    · exact (hk i0).2 hr
+    · exact h.hskip hr r h0'
 
 /-- a monitor finishes (`Finish` → `descendantFinished`) -/
 theorem inv_finish {s : State} {i : Nat} {m m' : Mon} (h : Inv s) (hi : s.mons[i]? = some m)
-    (hu : unf m = true) (hf : unf m' = false) (hok : m'.ok) (hnf : m'.phase ≠ .fresh) :
+    (hu : unf m = true) (hf : unf m' = false) (hok : m'.ok) (hk : RootKeep s i m') :
     Inv (finishOne (s.setMon i m')) := by
   obtain ⟨hl, hm⟩ := getElem_of_get? hi
   obtain ⟨hu1, hpp, hpo⟩ := h.unposted hi hu
@@ -123,7 +152,7 @@ theorem inv_finish {s : State} {i : Nat} {m m' : Mon} (h : Inv s) (hi : s.mons[i
     simp only [if_true, Bool.false_eq_true, if_false] at this ⊢
     omega
   have hc := h.count
-  refine ⟨?_, ?_, ?_, ?_, ?_, h.wreg, ?_, ?_, h.noPanic⟩
+  refine ⟨?_, ?_, ?_, ?_, ?_, ?_, h.wreg, ?_, ?_, h.noPanic⟩
   · show s.unfinished - 1 = (s.mons.set i m').countP unf
     omega
   · show (if s.unfinished = 1 then s.postPending + 1 else s.postPending) + s.posted ≤ 1
@@ -136,11 +165,13 @@ theorem inv_finish {s : State} {i : Nat} {m m' : Mon} (h : Inv s) (hi : s.mons[i
     · exact h.mon_ok x hx
     · exact hx ▸ hok
   · intro hr r h0
-    have h0' : (s.mons.set i m')[0]? = some r := h0
-    rw [List.getElem?_set] at h0'
-    split at h0'
-    · cases h0'; exact hnf
+    rcases root_after_set h0 with ⟨i0, rfl⟩ | ⟨_, h0'⟩
+    · exact (hk i0).1 hr
     · exact h.hreg hr r h0'
+  · intro hr r h0
+    rcases root_after_set h0 with ⟨i0, rfl⟩ | ⟨_, h0'⟩
+    · exact (hk i0).2 hr
+    · exact h.hskip hr r h0'
   · exact h.pre
   · intro hp1
     have : s.posted = 1 := hp1
@@ -161,13 +192,45 @@ theorem inv_step {s s' : State} {e : Event} (h : Inv s) (hs : step s e = some s'
         obtain ⟨_, hpp, hpo⟩ := h.unposted hr hu
         have hpre := h.pre hpo
         have hw' : s.waiting = false := by simpa using hw
-        refine ⟨h.count, h.post_le, h.post_iff, h.mon_ok, h.hreg, ?_, ?_, ?_, h.noPanic⟩
+        refine ⟨h.count, h.post_le, h.post_iff, h.mon_ok, h.hreg, h.hskip, ?_, ?_, ?_, h.noPanic⟩
         · intro _; rfl
         · intro _
           obtain ⟨a, b, c, d, e, f, g, k⟩ := hpre
           refine ⟨a, b, c, d, e, f, ?_, k⟩
           show s.obsWait + 1 = _
           simp [hw'] at g ⊢
+          omega
+        · intro hp1
+          have : s.posted = 1 := hp1
+          omega
+      · cases hs
+    · cases hs
+  | regHandler =>
+    simp only [step] at hs
+    split at hs; · cases hs
+    rename_i hw
+    split at hs
+    · rename_i r hr
+      split at hs
+      · rename_i hph
+        cases hs
+        have hu : unf r = true := by simp [unf, hph, Phase.finished]
+        obtain ⟨_, hpp, hpo⟩ := h.unposted hr hu
+        have hpre := h.pre hpo
+        have hw' : s.handlerReg = false := by simpa using hw
+        have hok := h.mon_ok r (mem_of_get? hr)
+        simp only [Mon.ok, hph] at hok
+        refine ⟨h.count, h.post_le, h.post_iff, h.mon_ok, ?_, ?_, h.wreg, ?_, ?_, h.noPanic⟩
+        · intro hr'; cases hr'
+        · intro _ r' hr'
+          have hr'' : s.mons[0]? = some r' := hr'
+          rw [hr] at hr''; cases hr''
+          exact hok.2.2.2.2
+        · intro _
+          obtain ⟨a, b, c, d, e, f, g, k⟩ := hpre
+          refine ⟨a, b, c, d, e, f, g, ?_⟩
+          show s.obsHandler + 1 = _
+          simp [hw'] at k ⊢
           omega
         · intro hp1
           have : s.posted = 1 := hp1
@@ -186,47 +249,29 @@ theorem inv_step {s s' : State} {e : Event} (h : Inv s) (hs : step s e = some s'
         obtain ⟨_, hpp, hpo⟩ := h.unposted hm hu
         split at hs
         · split at hs
-          · cases hs
+          · rename_i hguard
+            cases hs
             have h1 : Inv (s.setMon i { m with phase := .queued, todo := rules }) :=
-              inv_setMon h hm (by simp [unf, hph, Phase.finished]) (by simp [Mon.ok]; exact ⟨hok.2.1, hok.2.2.1, hok.2.2.2⟩)
-                (by simp)
-            have hpre := h.pre hpo
-            refine ⟨h1.count, h1.post_le, h1.post_iff, h1.mon_ok, ?_, h1.wreg, ?_, ?_, h1.noPanic⟩
-            · intro hr r h0
-              have hr' : (s.handlerReg || (i == 0)) = true := hr
-              have h0' : (s.mons.set i { m with phase := .queued, todo := rules })[0]? = some r := h0
-              rw [List.getElem?_set] at h0'
-              split at h0'
-              · split at h0'
-                · cases h0'; simp
-                · cases h0'
-              · rename_i hne
-                have : s.handlerReg = true := by
-                  cases hh : s.handlerReg
-                  · simp [hh] at hr'; omega
-                  · rfl
-                exact h.hreg this r h0'
-            · intro _
-              obtain ⟨a, b, c, d, e, f, g, k⟩ := hpre
-              refine ⟨a, b, c, d, e, f, g, ?_⟩
-              show (if i = 0 then s.obsHandler + 1 else s.obsHandler) = if (s.handlerReg || (i == 0)) = true then 1 else 0
-              by_cases hi0 : i = 0
-              · subst hi0
-                have : s.handlerReg = false := by
-                  cases hh : s.handlerReg
-                  · rfl
-                  · exact absurd hph (h.hreg hh m hm)
-                simp [this] at k ⊢
-                omega
-              · simp [hi0]
-                exact k
-            · intro hp1
-              have : s.posted = 1 := hp1
-              omega
+              inv_setMon h hm (by simp [unf, hph, Phase.finished]) (by simp [Mon.ok]; exact ⟨hok.2.1, hok.2.2.1, hok.2.2.2.1⟩)
+                (by
+                  intro i0
+                  have hreg := hguard.2 i0
+                  constructor
+                  · intro hf; rw [hreg] at hf; cases hf
+                  · intro _; exact hok.2.2.2.2)
+            exact ⟨h1.count, h1.post_le, h1.post_iff, h1.mon_ok, h1.hreg, h1.hskip, h1.wreg, h1.pre, h1.post, h1.noPanic⟩
           · cases hs
-        · cases hs
-          exact inv_finish h hm hu (by simp [unf, Phase.finished])
-            (by simp [Mon.ok]; exact ⟨hok.1, Or.inl ⟨hok.2.1, hok.2.2.1, hok.2.2.2⟩⟩) (by simp)
+        · split at hs
+          · cases hs
+          · rename_i hguard
+            cases hs
+            exact inv_finish h hm hu (by simp [unf, Phase.finished])
+              (by simp [Mon.ok]; exact ⟨hok.1, Or.inl ⟨hok.2.1, hok.2.2.1, hok.2.2.2.1⟩⟩)
+              (by
+                intro i0
+                constructor
+                · intro _; right; rfl
+                · intro hr; exact absurd ⟨i0, hr⟩ hguard)
       all_goals cases hs
     · cases hs
   | newChild p =>
@@ -239,7 +284,7 @@ theorem inv_step {s s' : State} {e : Event} (h : Inv s) (hs : step s e = some s'
         have hu : unf m = true := by simp [unf, hph, Phase.finished]
         obtain ⟨hu1, hpp, hpo⟩ := h.unposted hm hu
         have hc := h.count
-        refine ⟨?_, h.post_le, ?_, ?_, ?_, h.wreg, h.pre, h.post, h.noPanic⟩
+        refine ⟨?_, h.post_le, ?_, ?_, ?_, ?_, h.wreg, h.pre, h.post, h.noPanic⟩
         · show s.unfinished + 1 = (s.mons ++ [_]).countP unf
           simp [List.countP_append, List.countP_cons, unf, Phase.finished]
           exact hc
@@ -255,6 +300,11 @@ theorem inv_step {s s' : State} {e : Event} (h : Inv s) (hs : step s e = some s'
           obtain ⟨hl, _⟩ := getElem_of_get? hm
           rw [List.getElem?_append_left (by omega)] at h0'
           exact h.hreg hr r0 h0'
+        · intro hr r0 h0
+          have h0' : (s.mons ++ [({ parent := some p, phase := .fresh } : Mon)])[0]? = some r0 := h0
+          obtain ⟨hl, _⟩ := getElem_of_get? hm
+          rw [List.getElem?_append_left (by omega)] at h0'
+          exact h.hskip hr r0 h0'
       · cases hs
     · cases hs
   | pop w i =>
@@ -267,7 +317,7 @@ theorem inv_step {s s' : State} {e : Event} (h : Inv s) (hs : step s e = some s'
           cases hs
           have hok := h.mon_ok m (mem_of_get? hm)
           simp only [Mon.ok, hph] at hok
-          exact inv_setMon h hm (by simp [unf, hph, Phase.finished]) (by simp [Mon.ok]; exact ⟨hok.2.1, hok.2.2⟩) (by simp)
+          exact inv_setMon h hm (by simp [unf, hph, Phase.finished]) (by simp [Mon.ok]; exact ⟨hok.2.1, hok.2.2⟩) (h.root_keep hm (by simp [hph]) rfl)
         · cases hs
       · cases hs
     · cases hs
@@ -280,7 +330,7 @@ theorem inv_step {s s' : State} {e : Event} (h : Inv s) (hs : step s e = some s'
         cases hs
         have hok := h.mon_ok m (mem_of_get? hm)
         simp only [Mon.ok, hph] at hok
-        exact inv_setMon h hm (by simp [unf, hph]) (by simp [Mon.ok, hph]; exact hok) (by simp [hph])
+        exact inv_setMon h hm (by simp [unf, hph]) (by simp [Mon.ok, hph]; exact hok) (h.root_keep hm (by simp [hph]) rfl)
       · cases hs
     · cases hs
   | taskDone i =>
@@ -296,11 +346,11 @@ theorem inv_step {s s' : State} {e : Event} (h : Inv s) (hs : step s e = some s'
         · rename_i hfl
           cases hs
           exact inv_finish h hm hu (by simp [unf, Phase.finished])
-            (by simp [Mon.ok]; exact ⟨htodo, Or.inl ⟨hfl, hok.1, hok.2⟩⟩) (by simp)
+            (by simp [Mon.ok]; exact ⟨htodo, Or.inl ⟨hfl, hok.1, hok.2⟩⟩) (h.root_keep hm (by simp [hph]) rfl)
         · rename_i hfl
           cases hs
           exact inv_setMon h hm (by simp [unf, hph, Phase.finished])
-            (by simp [Mon.ok]; exact ⟨hfl, htodo, hok.1, hok.2⟩) (by simp)
+            (by simp [Mon.ok]; exact ⟨hfl, htodo, hok.1, hok.2⟩) (h.root_keep hm (by simp [hph]) rfl)
       · cases hs
     · cases hs
   | setErrors i =>
@@ -313,7 +363,7 @@ theorem inv_step {s s' : State} {e : Event} (h : Inv s) (hs : step s e = some s'
         have hok := h.mon_ok m (mem_of_get? hm)
         simp only [Mon.ok, hph] at hok
         exact inv_setMon h hm (by simp [unf, hph, Phase.finished])
-          (by simp [Mon.ok]; exact ⟨hok.1, hok.2.1⟩) (by simp)
+          (by simp [Mon.ok]; exact ⟨hok.1, hok.2.1⟩) (h.root_keep hm (by simp [hph]) rfl)
       all_goals cases hs
     · cases hs
   | errFinish i =>
@@ -326,7 +376,7 @@ theorem inv_step {s s' : State} {e : Event} (h : Inv s) (hs : step s e = some s'
         have hok := h.mon_ok m (mem_of_get? hm)
         simp only [Mon.ok, hph] at hok
         exact inv_finish h hm (by simp [unf, hph, Phase.finished]) (by simp [unf, Phase.finished])
-          (by simp [Mon.ok]; exact hok) (by simp)
+          (by simp [Mon.ok]; exact hok) (h.root_keep hm (by simp [hph]) rfl)
       all_goals cases hs
     · cases hs
   | notified i =>
@@ -339,14 +389,14 @@ theorem inv_step {s s' : State} {e : Event} (h : Inv s) (hs : step s e = some s'
         have hok := h.mon_ok m (mem_of_get? hm)
         simp only [Mon.ok, hph] at hok
         exact inv_setMon h hm (by simp [unf, hph, Phase.finished])
-          (by simp [Mon.ok]; exact ⟨hok.2.1, Or.inr ⟨hok.1, hok.2.2.1, hok.2.2.2⟩⟩) (by simp)
+          (by simp [Mon.ok]; exact ⟨hok.2.1, Or.inr ⟨hok.1, hok.2.2.1, hok.2.2.2⟩⟩) (h.root_keep hm (by simp [hph]) rfl)
       all_goals cases hs
     · cases hs
   | dropQueue =>
     simp only [step] at hs
     split at hs
     · cases hs
-      exact ⟨h.count, h.post_le, h.post_iff, h.mon_ok, h.hreg, h.wreg, h.pre, h.post, h.noPanic⟩
+      exact ⟨h.count, h.post_le, h.post_iff, h.mon_ok, h.hreg, h.hskip, h.wreg, h.pre, h.post, h.noPanic⟩
     · cases hs
   | post =>
     simp only [step] at hs
@@ -358,7 +408,7 @@ theorem inv_step {s s' : State} {e : Event} (h : Inv s) (hs : step s e = some s'
       have hiff := h.post_iff
       have hpo : s.posted = 0 := by omega
       obtain ⟨a, b, c, d, e, f, g, k⟩ := h.pre hpo
-      refine ⟨h.count, ?_, ?_, h.mon_ok, h.hreg, h.wreg, ?_, ?_, h.noPanic⟩
+      refine ⟨h.count, ?_, ?_, h.mon_ok, h.hreg, h.hskip, h.wreg, ?_, ?_, h.noPanic⟩
       · show s.postPending - 1 + (s.posted + 1) ≤ 1
         omega
       · show s.postPending - 1 + (s.posted + 1) = 1 ↔ s.unfinished = 0
@@ -384,7 +434,7 @@ theorem inv_step {s s' : State} {e : Event} (h : Inv s) (hs : step s e = some s'
           · exact absurd (h.pre hp0).1 hd
           · omega
         obtain ⟨a, b⟩ := h.post hp1
-        refine ⟨h.count, h.post_le, h.post_iff, h.mon_ok, h.hreg, h.wreg, ?_, ?_, h.noPanic⟩
+        refine ⟨h.count, h.post_le, h.post_iff, h.mon_ok, h.hreg, h.hskip, h.wreg, ?_, ?_, h.noPanic⟩
         · intro hp0
           have : s.posted = 0 := hp0
           omega
@@ -403,7 +453,7 @@ theorem inv_step {s s' : State} {e : Event} (h : Inv s) (hs : step s e = some s'
           · exact absurd (h.pre hp0).2.1 hd
           · omega
         obtain ⟨a, b⟩ := h.post hp1
-        refine ⟨h.count, h.post_le, h.post_iff, h.mon_ok, h.hreg, h.wreg, ?_, ?_, h.noPanic⟩
+        refine ⟨h.count, h.post_le, h.post_iff, h.mon_ok, h.hreg, h.hskip, h.wreg, ?_, ?_, h.noPanic⟩
         · intro hp0
           have : s.posted = 0 := hp0
           omega
@@ -422,7 +472,7 @@ theorem inv_step {s s' : State} {e : Event} (h : Inv s) (hs : step s e = some s'
           · exact absurd (h.pre hp0).2.2.1 hd
           · omega
         have hq := anyQueued_false (h.all_finished (by omega))
-        refine ⟨h.count, h.post_le, h.post_iff, h.mon_ok, h.hreg, h.wreg, ?_, h.post, ?_⟩
+        refine ⟨h.count, h.post_le, h.post_iff, h.mon_ok, h.hreg, h.hskip, h.wreg, ?_, h.post, ?_⟩
         · intro hp0
           have : s.posted = 0 := hp0
           omega
@@ -439,7 +489,7 @@ theorem inv_step {s s' : State} {e : Event} (h : Inv s) (hs : step s e = some s'
         · have := (h.pre hp0).2.2.2.1
           omega
         · omega
-      refine ⟨h.count, h.post_le, h.post_iff, h.mon_ok, h.hreg, ?_, ?_, h.post, h.noPanic⟩
+      refine ⟨h.count, h.post_le, h.post_iff, h.mon_ok, h.hreg, h.hskip, ?_, ?_, h.post, h.noPanic⟩
       · intro _
         show s.waiting = true
         have := (h.post hp1).1
